@@ -110,6 +110,10 @@ def spec_check(drv, case, obs) -> List[str]:
             out.append(f"{tag}: reported path weighs {m['weight']}, a path of weight {m['best']} exists")
         if i == 0 and m["span_bounded"] and not m["within_makespan"]:
             out.append(f"{tag}: path weight {m['weight']} exceeds the time from its first to its last node")
+        if i == 0:
+            tss = [t for _, t in r["ts"]]
+            if tss and m["weight"] > max(tss) - min(tss):
+                out.append(f"{tag}: path weight {m['weight']} exceeds the makespan of the analysed window ({max(tss) - min(tss)})")
         if r["edge_set"] != r["expected_edge_set"] or m["n_path_edges"] != len(r["path"]) - 1:
             out.append(f"{tag}: critical_path_edges_set is not the set of edges between consecutive path nodes")
         if r["event_set"] != r["expected_event_set"]:
